@@ -198,7 +198,7 @@ def once_keeps_order(ctx):
               "a transient failure of A becomes [A:p1, A:p0] and p1 goes out first (repro: /verif/repro/c35_once_reorders.py)")
 
 
-TX_METHODS = ("_serviceOneTxPkt", "serviceTxPkts", "serviceTxPktsOnce")
+TX_METHODS = ("_serviceOneTxPkt", "serviceTxPkts", "serviceTxPktsOnce", "_serviceOneReceived")
 TX_MUTATORS = ("append", "appendleft", "extend", "extendleft", "insert", "pop", "popleft", "remove", "rotate", "reverse", "clear", "sort")
 
 
